@@ -1,0 +1,18 @@
+//go:build verif
+// +build verif
+
+package cluster
+
+import "context"
+
+// This file exists only in builds with the "verif" tag. It lets an external
+// verification harness start the provider's hostname reservation service on
+// its own, exactly as NewService starts it (newHostnameService), and observe
+// the end of its loop.
+
+// VerifNewHostnameService starts a hostname service and returns its client
+// interface and the channel that is closed when its loop has ended.
+func VerifNewHostnameService(ctx context.Context, cfg Config) (HostnameServiceClient, <-chan struct{}) {
+	hs := newHostnameService(ctx, cfg)
+	return hs, hs.lc.Done()
+}
